@@ -16,7 +16,7 @@ SLOW = 10.0          # seconds for one decode call; generous: the check itself l
 
 OBL = '''From Coq Require Import ZArith List Bool Lia.
 Require Import PyIR.Base.Result PyIR.Engine.Parse PyIR.Engine.NoCrash PyIR.Engine.ParseM PyIR.Engine.ParseMProps PyIR.Proto.Descriptor PyIR.Proto.RoundTrip
-               PyIR.Engine.ParseMD PyIR.Engine.ParseMDProps PyIR.Engine.ParseHT PyIR.Engine.ParseHTProps PyIR.Engine.ParseB PyIR.Ctl.Instance PyIR.Ctl.NoCrash.
+               PyIR.Engine.ParseMD PyIR.Engine.ParseMDProps PyIR.Engine.ParseHT PyIR.Engine.ParseHTProps PyIR.Engine.ParseB PyIR.Engine.ParseMT PyIR.Engine.ParseMTProps PyIR.Ctl.Instance PyIR.Ctl.NoCrash.
 Require Import Gen.Tables.
 Import ListNotations.
 Open Scope Z_scope.
@@ -50,6 +50,17 @@ Proof.
 Qed.
 Print Assumptions C08_%s.
 ''' % (name, name, name, name, name, engine.coq_ptable(p['middle']), name), None
+    if engine.modelled_MT(p):
+        return OBL + '''
+(* %s: Manchester table with tuple / integer middle timings.  The engine part of decode(): CodeWrapper on the class tables, for
+   every input list *)
+Theorem C08_%s : exists t, as_pairs (d_bursts D_%s) = Some t /\\
+  forall frame, is_pyerr (parseMT 20 (d_lead_in D_%s) (d_lead_out D_%s) (map mk_mid %s) t frame) = false.
+Proof.
+  eexists. split; [reflexivity|]. intros frame. apply parseMT_no_pyerr.
+Qed.
+Print Assumptions C08_%s.
+''' % (name, name, name, name, name, engine.coq_mids(p['middle']), name), None
     if engine.modelled_B(p):
         return OBL + '''
 (* %s: serial ("bit") table [mark, space].  The engine part of decode(): CodeWrapper on the class tables, for every input list *)
@@ -390,9 +401,9 @@ def run(ctx):
                     if ctx.rng.random() < 0.3:
                         items.append((p, data, 20, True, kind))
     # the two engine models with middle timings (RC6 family: positional entry; halfbit tables with (mark, space) tuples)
-    md_items, ht_items, b_items = [], [], []
+    md_items, ht_items, b_items, mt_items = [], [], [], []
     for p in modelled:
-        if not (engine.modelled_MD(p) or engine.modelled_HT(p) or engine.modelled_B(p)):
+        if not (engine.modelled_MD(p) or engine.modelled_HT(p) or engine.modelled_B(p) or engine.modelled_MT(p)):
             continue
         own = valid.get(p['name'], [])
         cand = [(kind, data) for kind, data in malformed_inputs(ctx.rng, (own * 3 + ctx.rng.sample(allvalid, 6)) if own else allvalid,
@@ -403,11 +414,11 @@ def run(ctx):
             for pat in ('long', 'short', 'alt', 'random'):
                 cand.append(('perturbed-' + pat, gen_inputs.perturb(list(f), 20, pat, ctx.rng)))
         for kind, data in cand:
-            (md_items if engine.modelled_MD(p) else b_items if engine.modelled_B(p) else ht_items).append(
+            (md_items if engine.modelled_MD(p) else b_items if engine.modelled_B(p) else mt_items if engine.modelled_MT(p) else ht_items).append(
                 (p, data, ctx.rng.choice([20, 20, 10, 5]), kind))
-    items = [it for it in items if not (engine.modelled_MD(it[0]) or engine.modelled_HT(it[0]) or engine.modelled_B(it[0]))]
+    items = [it for it in items if not (engine.modelled_MD(it[0]) or engine.modelled_HT(it[0]) or engine.modelled_B(it[0]) or engine.modelled_MT(it[0]))]
     for nm, its, fn in (('parseMD', md_items, engine.corr_parseMD), ('parseHT', ht_items, engine.corr_parseHT),
-                        ('parseB', b_items, engine.corr_parseB)):
+                        ('parseB', b_items, engine.corr_parseB), ('parseMT', mt_items, engine.corr_parseMT)):
         mb = fn(ctx, its, name='corr_%s_malformed' % nm) if its else []
         if mb is None:
             ctx.report('correspondence', 'model-eval-failed', {}, dict(theorem='PyIR.Engine.%s evaluation' % nm), found_input=False)
